@@ -582,3 +582,101 @@ Proof.
   unfold merge_parts. rewrite merge_parts_lookup_acc. simpl.
   destruct (last_some _); reflexivity.
 Qed.
+
+(* ------------------------------------------------------------------ *)
+(* readable consequences                                                *)
+(* ------------------------------------------------------------------ *)
+Lemma reg_has_str_present reg strict h n :
+  reg_has reg n is_VStr true = true -> header_ok reg strict h = true ->
+  exists s, dget h n = Some (PStr s).
+Proof.
+  intros A H. apply header_ok_parts in H. destruct H as [Rq [T _]].
+  apply reg_has_In in A. destruct A as [p [Hp [Hn [Hk Hr]]]]. specialize (Hr eq_refl).
+  unfold required_present in Rq. rewrite forallb_forall in Rq. specialize (Rq p Hp).
+  rewrite Hr, Hn in Rq. simpl in Rq. apply dmem_dget in Rq. destruct Rq as [v G].
+  unfold types_ok in T. rewrite forallb_forall in T. specialize (T p Hp).
+  rewrite Hn, G in T. destruct (hp_kind p); try discriminate.
+  destruct v; try discriminate. eauto.
+Qed.
+
+Lemma reg_has_bool_typed reg strict h n v :
+  reg_has reg n is_VBool false = true -> header_ok reg strict h = true ->
+  dget h n = Some v -> exists b, v = PBool b.
+Proof.
+  intros A H G. apply header_ok_parts in H. destruct H as [_ [T _]].
+  apply reg_has_In in A. destruct A as [p [Hp [Hn [Hk _]]]].
+  unfold types_ok in T. rewrite forallb_forall in T. specialize (T p Hp).
+  rewrite Hn, G in T. destruct (hp_kind p); try discriminate.
+  destruct v; try discriminate. eauto.
+Qed.
+
+(* what an accepted JWE header guarantees about the algorithm-specific parameters *)
+Lemma jwe_accept_more tbl rec allowed reg strict h cm :
+  jwe_check_header tbl rec allowed reg strict h cm = Ok tt ->
+  exists s row,
+    dget h alg_name = Some (PStr s) /\ find_alg tbl s = Some row /\
+    alg_permitted rec allowed s = true /\
+    (cm = true -> required_present_P (ea_more row) h) /\
+    types_ok_P (ea_more row) h /\
+    (strict = true -> forall k, In k (dkeys h) -> In k (reg_names reg) \/ In k (reg_names (ea_more row))).
+Proof.
+  intro H. apply jwe_iff in H. unfold header_ok_jwe in H.
+  apply andb_true_iff in H. destruct H as [_ H].
+  destruct (dget h alg_name) as [a|]; [|discriminate].
+  destruct a; try discriminate.
+  rewrite <- find_alg_sym in H.
+  destruct (find_alg tbl s) as [row|] eqn:F; [|discriminate].
+  apply andb_true_iff in H. destruct H as [H H4].
+  apply andb_true_iff in H. destruct H as [H H3].
+  apply andb_true_iff in H. destruct H as [H1 H2].
+  exists s, row. repeat split; auto.
+  - intro C. subst cm. simpl in H2. apply required_present_iff. exact H2.
+  - apply types_ok_iff. exact H3.
+  - intros C k Hk. subst strict. simpl in H4.
+    apply (proj1 (no_unregistered_In _ _) H4) in Hk.
+    unfold reg_names in *. rewrite map_app in Hk. apply in_app_or in Hk. exact Hk.
+Qed.
+
+(* a caller-registered parameter is accepted: adding it, well-typed, to an
+   accepted header keeps the header accepted (strict mode included) *)
+Lemma dget_app_new {A} (h : list (str * A)) n v k :
+  dget (h ++ [(n, v)]) k =
+  match dget h k with Some x => Some x | None => if str_eqb n k then Some v else None end.
+Proof.
+  induction h as [|[k' v'] h IH]; simpl; [reflexivity|].
+  destruct (str_eqb k' k); [reflexivity | exact IH].
+Qed.
+
+Lemma header_ok_add reg strict h n v :
+  header_ok reg strict h = true ->
+  dmem h n = false -> n <> crit_name ->
+  (forall p, In p reg -> pname p = n -> json_type_ok (hp_kind p) v = true) ->
+  (exists p, In p reg /\ pname p = n) ->
+  header_ok reg strict (h ++ [(n, v)]) = true.
+Proof.
+  intros H M NC T [p0 [Hp0 Hn0]].
+  apply header_ok_parts in H. destruct H as [Rq [Ty [C S]]].
+  apply header_ok_parts.
+  assert (MEM : forall k, dmem h k = true -> dmem (h ++ [(n, v)]) k = true).
+  { intros k Hk. unfold dmem in *. rewrite dget_app_new. destruct (dget h k); [reflexivity | discriminate]. }
+  repeat split.
+  - unfold required_present in *. rewrite forallb_forall in *. intros p Hp.
+    specialize (Rq p Hp). destruct (hp_required p); [|reflexivity]. simpl in *. apply MEM. exact Rq.
+  - unfold types_ok in *. rewrite forallb_forall in *. intros p Hp.
+    specialize (Ty p Hp). rewrite dget_app_new.
+    destruct (dget h (pname p)) eqn:G; [exact Ty|].
+    destruct (str_eqb n (pname p)) eqn:E; [|reflexivity].
+    apply str_eqb_eq in E. apply (T p Hp). symmetry. exact E.
+  - unfold crit_ok in *. rewrite dget_app_new.
+    destruct (dget h crit_name) as [c|] eqn:G.
+    + destruct c; try discriminate. rewrite forallb_forall in *. intros x Hx.
+      specialize (C x Hx). destruct x; try discriminate. apply MEM. exact C.
+    + destruct (str_eqb n crit_name) eqn:E; [|reflexivity].
+      apply str_eqb_eq in E. contradiction.
+  - intro St. specialize (S St).
+    apply no_unregistered_In. intros k Hk.
+    unfold dkeys in Hk. rewrite map_app in Hk. apply in_app_or in Hk. destruct Hk as [Hk|Hk].
+    + exact (proj1 (no_unregistered_In _ _) S k Hk).
+    + simpl in Hk. destruct Hk as [Hk|[]]. subst k. unfold reg_names.
+      apply in_map_iff. exists p0. split; [exact Hn0 | exact Hp0].
+Qed.
